@@ -163,7 +163,7 @@ end linadj
 
 /-! ### exact quadratic expansion of `α‖Ax−y‖²_W` -/
 section quad
-variable {K : Type} [Field K] [LinearOrder K] [IsStrictOrderedRing K] [HasSqrt K] {n m : Nat}
+variable {K : Type} [Field K] [LinearOrder K] [IsStrictOrderedRing K] [HasSqrt K] [HasLog K] {n m : Nat}
 
 theorem abs2_sub_add (r e : Cx K) :
     Cx.abs2 (-r - e) = Cx.abs2 r + 2 * (r.re * e.re + r.im * e.im) + Cx.abs2 e := by
